@@ -1,6 +1,7 @@
 package task
 
 import (
+	"fmt"
 	"io/fs"
 	"os"
 	"sort"
@@ -152,8 +153,10 @@ func zzGlob(dir string, g string) ([]string, error) {
 	return []string{g}, nil
 }
 
-// The xxh3 digest over file names and contents is modelled as an injective
-// function of exactly that data (hash collisions are outside the claim).
+// ChecksumChecker.checksum feeds one hasher with, for every source file in Globs order, the
+// file's base name followed by its contents. The model keeps exactly that byte stream and
+// takes the xxh3 digest to be an injective function of the stream (hash collisions are
+// outside the claim; what the stream cannot tell apart is not).
 //
 //gosmt:stub (*github.com/go-task/task/v3/internal/fingerprint.ChecksumChecker).checksum
 func zzChecksum(c *fingerprint.ChecksumChecker, t *ast.Task) (string, error) {
@@ -161,7 +164,7 @@ func zzChecksum(c *fingerprint.ChecksumChecker, t *ast.Task) (string, error) {
 	if err != nil {
 		return "", err
 	}
-	h := "H"
+	h := "xxh3:" // the digest of an empty stream is not the empty string either
 	for _, f := range sources {
 		file, ok := zzFS[f]
 		if !ok {
@@ -171,9 +174,19 @@ func zzChecksum(c *fingerprint.ChecksumChecker, t *ast.Task) (string, error) {
 		if k := strings.LastIndex(f, "/"); k >= 0 {
 			base = f[k+1:]
 		}
-		h += "[" + base + "=" + file.content + "]"
+		h += base + file.content + zzChecksumFrame(file.content)
 	}
 	return h, nil
+}
+
+// zzChecksumFrame: what the real code adds after a file's contents: nothing (the parameter
+// exists to show that a NUL-delimited length would make the stream injective; see the known
+// finding of ZZ_C05_ChecksumFraming).
+func zzChecksumFrame(content string) string {
+	if zz.Param("checksum_has_frame", 0) == 1 {
+		return fmt.Sprintf("\x00%d\x00", len(content))
+	}
+	return ""
 }
 
 var _ = zz.Native
